@@ -166,6 +166,7 @@ class Interp:
         self.caught: list[tuple[str, str, str, str]] = []  # exceptions the analysed code caught itself (diagnostics)
         self._globals: dict[tuple[str, str], Any] = {}
         self.natives: dict[str, Any] = {}  # models of third-party callables, by qualified name
+        self.builtin_overrides: dict[str, Any] = {}  # print, exit, ... when a rule wants to observe them
         self.native_consts: dict[str, Any] = {}  # models of third-party objects, by qualified name
         self.natives["functools.reduce"] = self._reduce
         self.cur: tuple[str, int] = ("?", 0)
@@ -777,6 +778,8 @@ class Interp:
                 return _External(str(obj))
             if kind == "module":
                 return _External(obj.name)  # type: ignore[union-attr]
+        if name in self.builtin_overrides:
+            return self.builtin_overrides[name]
         if name in _BUILTINS:
             return _BUILTINS[name]
         if name in BUILTIN_EXC:
